@@ -2,7 +2,7 @@
 
 case = {"model": {"Evt.val": sig, "Evt.jets": sig, "Jet.val": sig, "Jet.trks": sig, "Jet.obj": sig, "Trk.val": sig, "fn": sig},
         "stages": [[op, param, bodyIR], ...]}
-sig = [[name, has_default, default_json], ...]          (positional-or-keyword parameters, trailing defaults)
+sig = [[name, has_default, default_json(, kind)], ...]   (kind 'po' = positional-only, 'kw' = keyword-only, absent = positional-or-keyword)
 IR:  ["site", recvIR, cls, meth, [argIR..], [[kw, argIR]..]]   ["fn", [argIR..], [[kw, argIR]..]]
      ["var", name] ["const", text] ["op", opname, srcIR, param, bodyIR] ["first", srcIR] ["count", srcIR]
      ["bin", op, a, b] ["dict", [[k, v]..]] ["field", objIR, name, how]
@@ -19,7 +19,7 @@ from vf.common.harness import Result
 ID = "C07"
 RULE = (
     "Generated class models (Evt/Jet/Trk with methods val/jets/trks/obj and a func_adl_callable function fn): every "
-    "signature has 0-4 positional-or-keyword parameters with any trailing subset defaulted (str/int/float/bool defaults, "
+    "signature has 0-4 parameters with any trailing subset defaulted (str/int/float/bool defaults, in a quarter of the signatures the first parameters are positional-only (before `/`) and / or the last ones keyword-only (after `*`, defaults need not be trailing); "
     "incl. negative numbers and quotes); the method name val exists on all three classes with different signatures and is, per case, optionally renamed to the name of a stream member (value, Select, Where, MetaData, First, Count, item_type, query_ast...); methods may be declared @staticmethod or @classmethod. Call "
     "shapes: k positional + any subset of the remaining parameters by keyword in any order + omitted defaults, plus shapes "
     "missing a required parameter. Placement: depth 0-3 through typed method chains, Select/Where/SelectMany/First/Count on "
@@ -46,19 +46,41 @@ _defaults = st.one_of(st.integers(-3, 9), st.sampled_from([0.5, -1.5, 2.0]), st.
 def _sig(draw, maxn=4):
     n = draw(st.integers(0, maxn))
     nd = draw(st.integers(0, n))
-    return [[PNAMES[i], i >= n - nd, draw(_defaults) if i >= n - nd else None] for i in range(n)]
+    sig = [[PNAMES[i], i >= n - nd, draw(_defaults) if i >= n - nd else None] for i in range(n)]
+    if n and draw(st.integers(0, 3)) == 0:
+        # parameter kinds other than positional-or-keyword: the first npo are positional-only (declared before `/`), the
+        # last nkw keyword-only (declared after `*`; their defaults need not be trailing)
+        nkw = draw(st.integers(0, n))
+        npo = draw(st.integers(0, n - nkw)) if draw(st.booleans()) else 0
+        for i in range(n):
+            kind = "po" if i < npo else ("kw" if i >= n - nkw else "")
+            if kind == "kw" and draw(st.booleans()):
+                has_d = draw(st.booleans())
+                sig[i] = [sig[i][0], has_d, draw(_defaults) if has_d else None]
+            if kind:
+                sig[i] = sig[i][:3] + [kind]
+    return sig
+
+
+def _kind(p):
+    return p[3] if len(p) > 3 else ""
 
 
 @st.composite
 def _shape(draw, sig, argfn, allow_missing):
     """returns (pos args IR, kw args IR); respects python's calling rules"""
     n = len(sig)
-    k = draw(st.integers(0, n))
+    npo = sum(1 for p in sig if _kind(p) == "po")
+    nkw = sum(1 for p in sig if _kind(p) == "kw")
+    lo = npo if not allow_missing else draw(st.sampled_from([npo, npo, npo, 0]))  # positional-only parameters cannot be given by keyword
+    k = draw(st.integers(min(lo, n - nkw), n - nkw))
     pos = [argfn() for _ in range(k)]
     rest = list(range(k, n))
     kws = []
     for i in rest:
-        name, has_d, _ = sig[i]
+        name, has_d = sig[i][0], sig[i][1]
+        if _kind(sig[i]) == "po":
+            continue  # not given positionally: takes its default, or is a missing required parameter
         if has_d:
             if draw(st.booleans()):
                 kws.append([name, argfn()])
@@ -225,13 +247,18 @@ def build_model(model, alias="val", kinds=None):
 
     def params(sig, key):
         out = []
-        for i, (name, has_d, dv) in enumerate(sig):
+        for i, p in enumerate(sig):
+            name, has_d, dv = p[0], p[1], p[2]
+            if _kind(p) == "kw" and (i == 0 or _kind(sig[i - 1]) != "kw"):
+                out.append("*")
             ann = {str: "str", bool: "bool", int: "int", float: "float"}.get(type(dv), "float")
             if has_d:
                 ns[f"_d_{key}_{i}"] = dv
                 out.append(f"{name}: {ann} = _d_{key}_{i}")
             else:
                 out.append(f"{name}: float")
+            if _kind(p) == "po" and (i + 1 == len(sig) or _kind(sig[i + 1]) != "po"):
+                out.append("/")
         return ", ".join(out)
 
     for cls in ("Trk", "Jet", "Evt"):
@@ -381,6 +408,8 @@ def check(case) -> Result:
         pos, kw = (s[4], s[5]) if s[0] == "site" else (s[1], s[2])
         omitted = len(sig) - len(pos) - len(kw)
         r.labels.append(f"arity:{len(sig)}")
+        if any(_kind(q) for q in sig):
+            r.labels.append("signature-with-keyword-only/positional-only-parameters")
         if kw:
             r.labels.append("keyword")
         if omitted > 0:
